@@ -222,6 +222,19 @@ def cases(ctx):
     reject("c19.def.rule.bad_condition", f"{RF}({{'path': ['a'], 'condition': {{'value.flatten': a}}}})", u, upre)
     reject("c19.def.rule.bad_path_part", f"{RF}({{'path': ['a', {{'type': 'tuple_value'}}], 'condition': {{}}}})")
     reject("c19.def.schema.item_missing_field", "Schema.from_json_like([{'path': ['a'], 'condition': {}}, {'path': ['b']}])", field="condition")
+    # history: the same definite errors after well-formed specs of the same datum kind were parsed in this process
+    warm = ["{'value.equal_to': 1}", "{'value.keys_contain': 'k'}", "{'key.equal_to': 'a'}", "{'key.allowed_keys': ['a']}", "{'value.length.eq': 1}",
+            "{'value.dtype.eq': 'int'}", "{'index.eq': 0}", "{'key.length.lt': 3}"]
+    hist = ["value.length.keys_contain", "key.length.allowed_keys", "value.dtype.items_contain", "key.dtype.required_keys", "index.keys_contain",
+            "index.length.eq", "value.length.keys_is_instance", "value.length.length", "value.flatten", "index.dtype.eq"]
+    for n, k in enumerate(hist):
+        body = (REJECT.replace("PARSE", "for w in (" + ", ".join(warm) + "):\n        ConditionLike.from_spec(w)\n    " + f"{CF}({{{k!r}: a}})"))
+        out.append(mk_case(f"c19.def.history.{n}", list(u), body, pre=[upre], stubs=["sym_repr"]))
+    import valida.datapath as _P
+    enum_names = sorted({m.name.lower() for e in (_P.DataPathDatumType, _P.DataPathMultiType) for m in e} - legit_path)
+    for nm in enum_names + ["none.none", "none.length", "first.none", "length.none"]:
+        reject(f"c19.def.path_suffix.enum.{nm}", f"{DF}({{{'path.' + nm!r}: [{{'type': 'map_value'}}]}})")
+        reject(f"c19.def.path_suffix.enum.upper.{nm}", f"{DF}({{{'Path.' + nm.upper()!r}: ['a', {{'type': 'list_value'}}]}})")
     # ---- (b) structural mutation: accepted or a listed error, never an internal one
     for posid, parse, ruleish in POSITIONS:
         for pid, psrc, pparams, ppre in PAYLOADS:
